@@ -159,7 +159,7 @@ class Simulation(object):
                 raise PyrtlError('error, one or more of the memories in the map is a RomBlock')
             if isinstance(self.block, PostSynthBlock):
                 mem = self.block.mem_map[mem]  # pylint: disable=maybe-no-member
-            self.memvalue[mem.id] = mem_map
+            self.memvalue[mem.id] = dict(mem_map)  # the simulation writes to it: not the caller's object
             max_addr_val, max_bit_val = 2**mem.addrwidth, 2**mem.bitwidth
             for (addr, val) in mem_map.items():
                 if addr < 0 or addr >= max_addr_val:
@@ -605,7 +605,7 @@ class FastSimulation(object):
             if isinstance(mem, RomBlock):
                 raise PyrtlError('error, one or more of the memories in the map is a RomBlock')
             name = self._mem_varname(mem)
-            self.mems[name] = mem_map
+            self.mems[name] = dict(mem_map)  # the simulation writes to it: not the caller's object
 
         for net in self.block.logic_subset('m@'):
             mem = net.op_param[1]
